@@ -1,3 +1,4 @@
+#include <sys/time.h>
 /* sim_app.h - the application model: channel configuration, request tokens for every entry
  * point, callbacks with re-entrant actions, scripted API calls, and the scheduler main loop. */
 
@@ -22,6 +23,7 @@ typedef struct {
   int      failover_delay_ms;
   char     sortlist[128];
   char     hosts_content[2048];
+  char     env_hosts_content[512]; /* non-empty: a second hosts file, named by $CARES_HOSTS (used by ARES_AI_ENVHOSTS lookups only) */
   char     hostaliases_content[512];
   char     resolv_content[512];   /* empty: a comment only */
   char     env_res_options[128];  /* empty: variable unset */
@@ -29,6 +31,7 @@ typedef struct {
   int      lookups_via;  /* 0: ARES_OPT_LOOKUPS; 1: "lookup ..." in resolv.conf (the channel's own copy is replaced on reinit) */
   int      ndots_via;    /* 0: ARES_OPT_NDOTS; 1: "options ndots:N" in resolv.conf; 2: RES_OPTIONS */
   int      domains_via;  /* 0: ARES_OPT_DOMAINS; 1: "search ..." in resolv.conf; 2: LOCALDOMAIN (needs ndomains > 0) */
+  int      domains_decoy; /* with domains_via 1: an earlier "domain x" (1) or "search x y" (2) line that the search line replaces */
   int      use_server_state_cb;
   int      local_bind; /* 1: ares_set_local_ip4/ip6 + ares_set_local_dev */
 } app_cfg_t;
@@ -39,6 +42,7 @@ static char            app_dir[256];    /* scratch dir of this worker */
 static char            app_resolv[300]; /* resolv.conf path */
 static char            app_hosts[300];
 static char            app_aliases[300];
+static char            app_hosts_env[300];
 static const char     *app_env_hostaliases; /* value served by the getenv wrap */
 
 /* ------------------------------------------------------------------ getenv wrap (deterministic environment) */
@@ -57,6 +61,9 @@ char *__wrap_getenv(const char *name)
   }
   if (!strcmp(name, "LOCALDOMAIN") && app_cfg.env_localdomain[0]) {
     return app_cfg.env_localdomain;
+  }
+  if (!strcmp(name, "CARES_HOSTS") && app_cfg.env_hosts_content[0]) {
+    return app_hosts_env;
   }
   if (!strcmp(name, "LOCALDOMAIN") || !strcmp(name, "RES_OPTIONS") || !strcmp(name, "CARES_HOSTS") ||
       !strcmp(name, "CARES_MEMDEBUG") || !strcmp(name, "CARES_MEMLIMIT")) {
@@ -720,8 +727,16 @@ static void app_write_file(const char *path, const char *content)
 {
   FILE *f = fopen(path, "w");
   if (f) {
+    struct timeval tv[2];
     fputs(content, f);
     fclose(f);
+    /* an hour old, like a real configuration file: the library's hosts-file cache compares the modification time
+     * with the (wall-clock) second it loaded the file in, and a file written in that very second never counts as
+     * cached */
+    gettimeofday(&tv[0], NULL);
+    tv[0].tv_sec -= 3600;
+    tv[1] = tv[0];
+    utimes(path, tv);
   }
 }
 
@@ -779,6 +794,12 @@ static int app_channel_init(void)
       ro = (size_t)snprintf(app_cfg.resolv_content, sizeof(app_cfg.resolv_content), "# simnet\n");
     }
     if (app_cfg.domains_via == 1 && app_cfg.ndomains > 0) {
+      /* resolv.conf(5): with several domain / search lines the last instance wins */
+      if (app_cfg.domains_decoy == 1) {
+        ro += (size_t)snprintf(app_cfg.resolv_content + ro, sizeof(app_cfg.resolv_content) - ro, "domain decoy.invalid\n");
+      } else if (app_cfg.domains_decoy == 2) {
+        ro += (size_t)snprintf(app_cfg.resolv_content + ro, sizeof(app_cfg.resolv_content) - ro, "search old1.invalid old2.invalid\n");
+      }
       ro += (size_t)snprintf(app_cfg.resolv_content + ro, sizeof(app_cfg.resolv_content) - ro, "search");
       for (i = 0; i < app_cfg.ndomains; i++) {
         ro += (size_t)snprintf(app_cfg.resolv_content + ro, sizeof(app_cfg.resolv_content) - ro, " %s", app_cfg.domains[i]);
@@ -801,6 +822,10 @@ static int app_channel_init(void)
   }
   app_write_file(app_resolv, app_cfg.resolv_content[0] ? app_cfg.resolv_content : "# simnet\n");
   app_write_file(app_hosts, app_cfg.hosts_content);
+  if (app_cfg.env_hosts_content[0]) {
+    snprintf(app_hosts_env, sizeof(app_hosts_env), "%s/hosts.env", app_dir);
+    app_write_file(app_hosts_env, app_cfg.env_hosts_content);
+  }
   if (app_cfg.hostaliases_content[0]) {
     app_write_file(app_aliases, app_cfg.hostaliases_content);
     app_env_hostaliases = app_aliases;
